@@ -7,6 +7,14 @@ x command lines (partial / wrong / alias-spelled path + arguments + options + op
 The real DefaultResolver (through ConsoleApplication.resolve_command on a bare ApplicationConfig)
 is compared with the Lean model, which gets the tree - including each command's flattened args
 format - from the REAL Command objects.  The oracle re-states the selection rule declaratively.
+
+The trees are configured the way an application author may do it: aliases one by one (add_alias) or
+through the bulk setters (add_aliases, set_aliases) with list objects the caller owns - one list handed
+to several commands, the list another command's config hands out, the caller appending to its list
+afterwards - and sub-commands attached one by one or with one call of add_(sub_)command_configs.  The
+oracle judges the selection on the tree AS CONFIGURED PER COMMAND (what each call said when it was
+made); the model of the configuration calls (Model/AliasCfg.lean, entry c03.aliases) is compared with
+the aliases of every real command config.
 """
 from harness import app_common as ac
 from harness import parser_common as pc
@@ -18,7 +26,8 @@ REQUIRED_THEOREMS = ["Clikit.Props.C03." + n for n in (
     "lead_eq_takeWhile", "tail_never_names", "options_after_path", "walk_none_iff", "walk_deepest", "alias_invariant",
     "resolve_unknown_first", "resolve_no_lead", "resolve_deepest", "pickDefault_first_parsable",
     "pickDefault_none_parsable", "sameLookupsB_sound", "alias_invariant_decided", "get?_alias", "lead_of_path",
-    "walk_from_some", "IsPath.unique")]
+    "walk_from_some", "IsPath.unique", "aliases_frame", "aliases_frame_run", "set_list_keeps", "set_from_keeps",
+    "shared_list_siblings")]
 TECHNIQUE = ("Lean 4 theorems on a model of DefaultResolver/CommandCollection (longest-prefix walk against a declarative "
              "path relation, alias invariance, options/tail never name commands) + differential correspondence on "
              "generated trees x lines, with a declarative oracle")
@@ -28,9 +37,13 @@ LEVEL_TEXT = ("Proved in Lean for EVERY command tree (any depth/fan-out) and tok
               "tokens that is a path of commands (stated against a declarative path relation written independently of the "
               "walk, with maximality), finds nothing iff the first token names no command (then: undefined-command error "
               "without any parse); respellings with the same lookups (aliases) never change the walk; the default "
-              "(sub-)command rule (first parsable, else first) and the three shapes of resolve. The model is tied to the code "
+              "(sub-)command rule (first parsable, else first) and the three shapes of resolve. The aliases a command is "
+              "configured with (Model/AliasCfg.lean: add_alias / add_aliases / set_aliases with caller-owned, possibly shared "
+              "lists): a call on another command's config or a change of a caller's list never changes them "
+              "(aliases_frame, aliases_frame_run, set_list_keeps, set_from_keeps, shared_list_siblings). The model is tied to the code "
               "by differential runs on generated trees x lines, the tree (incl. each command's flattened format) being read "
-              "from the real Command objects.")
+              "from the real Command objects; the configuration model by comparing, on every case, the aliases of every real "
+              "command config with the model's answer to the same calls (c03.aliases).")
 LEVEL_NOTE = ("Trusted: Lean kernel + standard axioms; the hand-written resolver model and the parser model it calls (modelled, "
               "not verified; compared with the real resolver on every generated case); harness/app_common.py. Sibling "
               "commands with the SAME NAME (dict overwrite in CommandCollection) are modelled but not generated (the "
@@ -41,15 +54,26 @@ LEVEL_NOTE = ("Trusted: Lean kernel + standard axioms; the hand-written resolver
               "the model (sameLookupsB, sound by sameLookupsB_sound, entry c03.same) on the tree read from the real "
               "application for the leading tokens of every line against two respellings (found command's name: must be "
               "true; its last alias: compared with the identity of the objects the real collections return), and the oracle "
-              "requires the same selection whenever the real collections find the same objects.")
+              "requires the same selection whenever the real collections find the same objects. The resolver model works "
+              "on the tree read from the real objects, so a configuration call that reaches a command it was not made on "
+              "shows (a) as a difference between the real configs' aliases and the configuration model (value semantics: "
+              "modelled, compared on every case) and (b) in the oracle, which walks the tree as configured per command.")
 RULE = ("generated trees (depth<=3, fan-out<=3, aliases incl. colliding, default/anonymous/hidden/disabled, lenient) x 6 "
         "lines each (full/partial/wrong paths spelled with names or aliases, then arguments, options, optional -- tail "
-        "containing command names); non-trivial = the line has >= 1 leading token or the app has a default command; "
+        "containing command names); half of the trees are configured through the bulk setters with caller-owned lists "
+        "(per command: add_alias one by one | add_aliases | add_alias then set_aliases (replaces) | set_aliases / "
+        "add_aliases with a list object that other commands - preferably of the same name in another branch - are "
+        "given too, followed by one more add_alias for this command only or by the caller appending to its list | "
+        "set_aliases(other.aliases) followed by add_alias; sub-commands / commands attached with one call of "
+        "add_sub_command_configs / add_command_configs on a list the caller then appends a decoy to); path tokens are "
+        "also drawn from the words that are aliases ELSEWHERE in the tree or only passed through a configuration call; non-trivial = the line has >= 1 leading token or the app has a default command; "
         "distinct = (tree, tokens)")
 TRUSTED_BASE = [
     "Lean 4.33 kernel; axioms within propext, Classical.choice, Quot.sound (audited per theorem on every run)",
     "lean/Clikit/Model/Resolver.lean + Model/Parser.lean: hand-written models (modelled, not verified; tied by the correspondence)",
     "harness/app_common.py, harness/props/c03.py: tree/line generators, extraction of the tree from the real Command objects, declarative oracle",
+    "lean/Clikit/Model/AliasCfg.lean: hand-written model of the alias configuration calls (value semantics); the oracle's own "
+    "reading of the calls (c03._AliasValues) is written independently of app_common._alias_ops, which makes the real calls",
 ]
 ASSUMPTIONS = [
     "sibling commands have distinct names in generated trees (aliases may collide with names and with each other)",
@@ -57,14 +81,159 @@ ASSUMPTIONS = [
     "(c03.same) and compared with the real collections; all other hypotheses of the C03 theorems are case conditions on the "
     "universally quantified tree and tokens (which shape of resolve applies), not facts taken from the real objects",
     "a bare ApplicationConfig with the DefaultResolver (no help/version listeners: those are C09's subject)",
+    "the tree 'as configured' is what each configuration call said when it was made: a list handed to a setter stays the "
+    "caller's (sharing it, or changing it afterwards, configures nothing); the configuration is finished before the "
+    "application is built",
 ]
 BATCH = 1500
 
 WORDS = ["x", "zzz", "7", "abc"]
+EXTRA_ALIASES = ["detach", "del", "mk", "up", "x"]
+
+
+# ---- how the aliases get configured ------------------------------------------------------------
+# `spec["alias_ops"]` (see app_common._alias_ops) = the calls made on the command's config, in order, with list objects
+# the caller owns: add_alias / add_aliases / set_aliases with fresh lists, with ONE list object handed to several
+# commands, with the list another command's config hands out, the caller appending to its list afterwards.  What a
+# command is configured with is what the calls said when they were made.
+def _preorder(cmds, path=()):
+    """commands in the order they are configured"""
+    for c in cmds:
+        yield c, path
+        for x in _preorder(c["subs"], path + (c["name"],)):
+            yield x
+
+
+class _AliasValues(object):
+    """the aliases each command is configured with, by the plain reading of the calls (value semantics); written
+    independently of app_common._alias_ops, which makes the calls on the real configs with shared list objects"""
+
+    def __init__(self):
+        self.lists, self.cmds = {}, {}
+
+    def command(self, spec, path):
+        if "alias_ops" not in spec:
+            al = list(spec["aliases"])
+        else:
+            al = []
+            for op in spec["alias_ops"]:
+                k = op[0]
+                if k == "add":
+                    al = al + [op[1]]
+                elif k == "adds":
+                    al = al + list(op[1])
+                elif k == "set":
+                    al = list(op[1])
+                elif k == "set_list":
+                    al = list(self.lists.setdefault(op[1], list(op[2])))
+                elif k == "adds_list":
+                    al = al + list(self.lists.setdefault(op[1], list(op[2])))
+                elif k == "append_list":
+                    if op[1] in self.lists:
+                        self.lists[op[1]] = self.lists[op[1]] + [op[2]]
+                elif k == "set_from":
+                    other = self.cmds.get(tuple(op[1]))
+                    al = list(other if other is not None else op[2])
+        self.cmds[tuple(path) + (spec["name"],)] = al
+        return al
+
+
+def _configured(tree):
+    """the tree with every command's `aliases` = what its configuration calls say"""
+    import copy
+    tree = copy.deepcopy(tree)
+    ev = _AliasValues()
+    for c, path in _preorder(tree["commands"]):
+        c["aliases"] = ev.command(c, path)
+    return tree
+
+
+def _alias_setup(rng, tree):
+    """about half of the trees are configured through the bulk setters / adders with caller-owned lists"""
+    if rng.random() < 0.5:
+        return tree
+    ev = _AliasValues()
+    done = []
+    for c, path in _preorder(tree["commands"]):
+        al = list(c["aliases"])
+        r = rng.random()
+        extra = rng.choice(EXTRA_ALIASES)
+        ops = None
+        if r < 0.30:
+            pass                                                   # add_alias, one by one
+        elif r < 0.38:
+            ops = [["adds", al]]
+        elif r < 0.50:
+            ops = ([["add", extra]] if rng.random() < 0.5 else []) + [["set", al]]     # set_aliases REPLACES
+        elif r < 0.85:
+            keys = sorted(ev.lists)
+            same = [k for k in keys if k.split("#")[0] == c["name"]]
+            if same and rng.random() < 0.8:
+                key = rng.choice(same)                              # the list a command of the same name got
+            elif keys and rng.random() < 0.4:
+                key = rng.choice(keys)
+            else:
+                key = "%s#%d" % (c["name"], len(keys))
+            value = list(ev.lists.get(key, al))
+            ops = [["set_list" if rng.random() < 0.85 else "adds_list", key, value]]
+            r2 = rng.random()
+            if r2 < 0.45:
+                ops.append(["add", extra])                          # one more alias for THIS command only
+            elif r2 < 0.65:
+                ops.append(["append_list", key, extra])             # the caller goes on using its list
+        elif done:
+            other = rng.choice(done)
+            ops = [["set_from", list(other), list(ev.cmds[other])]]
+            if rng.random() < 0.6:
+                ops.append(["add", extra])
+        if ops is not None:
+            c["alias_ops"] = ops
+        c["aliases"] = ev.command(c, path)
+        done.append(tuple(path) + (c["name"],))
+        if c["subs"] and rng.random() < 0.12:
+            c["subs_via"] = "bulk"
+    if rng.random() < 0.12:
+        tree["commands_via"] = "bulk"
+    return tree
+
+
+def _alias_words(tree):
+    """every word that is (or was, in some call or caller-owned list) an alias somewhere in the tree; first the words
+    added AFTER a list was handed over (`hot`: the ones that must not travel)"""
+    hot, out = [], []
+    for c, _ in _preorder(tree["commands"]):
+        ws = list(c["aliases"])
+        handed = False
+        for op in c.get("alias_ops", []):
+            k = op[0]
+            if k == "add":
+                ws.append(op[1])
+                if handed:
+                    hot.append(op[1])
+            elif k in ("adds", "set"):
+                ws.extend(op[1])
+            elif k in ("set_list", "adds_list", "set_from"):
+                ws.extend(op[2])
+                handed = True
+            elif k == "append_list":
+                ws.append(op[2])
+                hot.append(op[2])
+        if c.get("subs_via") == "bulk":
+            hot.append("decoy")
+        out.extend(ws)
+    if tree.get("commands_via") == "bulk":
+        hot.append("decoy")
+    res = []
+    for w in hot + out:
+        if w not in res:
+            res.append(w)
+    return res, len(set(hot))
 
 
 def _lines(rng, tree):
     cmds = ac.enabled(tree["commands"])
+    elsewhere, n_hot = _alias_words(tree)
+    p_else = 0.30 if n_hot else 0.2
     out = []
     for _ in range(6):
         toks = []
@@ -77,6 +246,16 @@ def _lines(rng, tree):
             if not named or r < 0.12:
                 toks.append(rng.choice(["nope", "ad", "servr"]))      # names nothing
                 break
+            if r < p_else and elsewhere:
+                # an alias of some OTHER command of the tree (or a word that only passed through a configuration
+                # call): it names a command here only if it is a name or alias configured at this level
+                w = rng.choice(elsewhere[:n_hot]) if n_hot and rng.random() < 0.6 else rng.choice(elsewhere)
+                toks.append(w)
+                c = _lookup(level, w)
+                if c is None:
+                    break
+                node, level = c, ac.enabled(c["subs"])
+                continue
             node = rng.choice(named)
             toks.append(rng.choice([node["name"]] + node["aliases"]) if rng.random() < 0.5 else node["name"])
             level = ac.enabled(node["subs"])
@@ -155,7 +334,7 @@ def _lines(rng, tree):
 def generate(tier, rng):
     n = 700 if tier == "quick" else 12000
     for _ in range(n):
-        tree = ac.gen_tree(rng)
+        tree = _alias_setup(rng, ac.gen_tree(rng))
         for toks in _lines(rng, tree):
             yield {"tree": tree, "tokens": toks}
 
@@ -219,11 +398,54 @@ def _respellings(app, lead):
     return {"canon": canon, "alias": alias, "same_canon": same(lead, canon), "same_alias": same(lead, alias)}
 
 
+def _config_aliases(app):
+    """[name path, aliases] of every command config of the application (disabled ones too), in configuration order"""
+    out = []
+
+    def walk(cfg, path):
+        p = path + [cfg.name]
+        out.append([p, list(cfg.aliases)])
+        for s in cfg.sub_command_configs:
+            walk(s, p)
+    for c in app.config.command_configs:
+        walk(c, [])
+    return out
+
+
+def _alias_requests(tree):
+    """the configuration calls of the tree for the model (Model/AliasCfg.lean): commands numbered in configuration
+    order, caller-owned lists numbered by first use"""
+    num, keys, ops, paths = {}, {}, [], []
+    for c, path in _preorder(tree["commands"]):
+        i = len(paths)
+        p = tuple(path) + (c["name"],)
+        paths.append(list(p))
+        for op in (c["alias_ops"] if "alias_ops" in c else [["add", a] for a in c["aliases"]]):
+            k = op[0]
+            if k in ("add", "adds", "set"):
+                ops.append([k, i, op[1]])
+            elif k in ("set_list", "adds_list"):
+                if op[1] not in keys:
+                    keys[op[1]] = len(keys)
+                    ops.append(["new_list", keys[op[1]], list(op[2])])
+                ops.append([k, i, keys[op[1]]])
+            elif k == "append_list":
+                if op[1] in keys:
+                    ops.append([k, keys[op[1]], op[2]])
+            elif k == "set_from":
+                if tuple(op[1]) in num:
+                    ops.append([k, i, num[tuple(op[1])]])
+                else:
+                    ops.append(["set", i, list(op[2])])
+        num[p] = i
+    return {"m": "c03.aliases", "n": len(paths), "ops": ops}, paths
+
+
 def run_impl(case):
     from clikit.resolver.default_resolver import DefaultResolver
     app = ac.build_app(case["tree"])
     tokens = case["tokens"]
-    obs = {"res": _resolve(app, tokens), "nodes": ac.extract_app(app)}
+    obs = {"res": _resolve(app, tokens), "nodes": ac.extract_app(app), "configured": _config_aliases(app)}
     r = DefaultResolver()
     obs["lead"] = r.get_arguments_to_test(iter(tokens))
     rs = _respellings(app, obs["lead"])
@@ -261,7 +483,8 @@ def model_requests(case):
     return [{"m": "c03.resolve", "commands": nodes, "tokens": case["tokens"], "ints": ints, "floats": floats},
             {"m": "c03.lead", "tokens": case["tokens"]},
             {"m": "c03.same", "commands": nodes, "names": lead, "names2": rs["canon"]},
-            {"m": "c03.same", "commands": nodes, "names": lead, "names2": rs["alias"]}]
+            {"m": "c03.same", "commands": nodes, "names": lead, "names2": rs["alias"]},
+            _alias_requests(case["tree"])[0]]
 
 
 def model_obs(case, answers):
@@ -269,13 +492,16 @@ def model_obs(case, answers):
     if "ok" in r:
         o = r["ok"]
         r = {"ok": {"path": o["path"], "args_set": sorted(o["args_set"]), "opts_set": sorted(o["opts_set"])}}
-    return {"res": r, "lead": answers[1], "same_canon": answers[2], "same_alias": answers[3]}
+    paths = _alias_requests(case["tree"])[1]
+    return {"res": r, "lead": answers[1], "same_canon": answers[2], "same_alias": answers[3],
+            "configured": [[p, a] for p, a in zip(paths, answers[4])]}
 
 
 def impl_view(case, obs):
     # same_canon: a command is always found under its own name (sibling names are distinct): must be true;
     # same_alias: an alias may be shadowed by a sibling's name or a later registration: whatever the real collections say
-    return {"res": obs["res"], "lead": obs["lead"], "same_canon": True, "same_alias": obs["respell"]["same_alias"]}
+    return {"res": obs["res"], "lead": obs["lead"], "same_canon": True, "same_alias": obs["respell"]["same_alias"],
+            "configured": obs["configured"]}
 
 
 # ---- the statement, declaratively ------------------------------------------------------------
@@ -294,7 +520,7 @@ def _lookup(level, name):
 
 
 def _expected(case, obs):
-    tree = case["tree"]
+    tree = _configured(case["tree"])
     tokens = case["tokens"]
     ls = []
     for t in tokens:
@@ -385,6 +611,7 @@ def bucket(case, obs):
 
 
 def shrink(case):
+    import copy
     t = case["tokens"]
     for i in range(len(t)):
         yield {"tree": case["tree"], "tokens": t[:i] + t[i + 1:]}
@@ -394,3 +621,38 @@ def shrink(case):
             tr = dict(case["tree"])
             tr["commands"] = cmds[:i] + cmds[i + 1:]
             yield {"tree": tr, "tokens": t}
+    # a plainer configuration: no bulk adders; one command configured with add_alias only (same aliases); a sub-tree less
+    if case["tree"].get("commands_via"):
+        yield {"tree": dict((k, v) for k, v in case["tree"].items() if k != "commands_via"), "tokens": t}
+    conf = _configured(case["tree"])
+    order = [c for c, _ in _preorder(case["tree"]["commands"])]
+    for j, c in enumerate(order):
+        for what in ("subs_via", "alias_ops", "subs"):
+            if not c.get(what):
+                continue
+            tr = copy.deepcopy(case["tree"])
+            c2 = [x for x, _ in _preorder(tr["commands"])][j]
+            if what == "subs":
+                c2["subs"] = []
+            else:
+                del c2[what]
+                c2["aliases"] = [x for x, _ in _preorder(conf["commands"])][j]["aliases"]
+            yield {"tree": tr, "tokens": t}
+
+
+def neighbours(case):
+    """lines that walk to a command of the tree and go on with a word that is an alias somewhere else"""
+    tree = _configured(case["tree"])
+    words, _ = _alias_words(case["tree"])
+    paths = [[]]
+
+    def walk(level, path):
+        for c in ac.enabled(level):
+            if c["anonymous"]:
+                continue
+            paths.append(path + [c["name"]])
+            walk(c["subs"], path + [c["name"]])
+    walk(tree["commands"], [])
+    for w in words:
+        for p in paths:
+            yield {"tree": case["tree"], "tokens": p + [w]}
